@@ -162,6 +162,10 @@ def gen_c04(rng, tier):
             frames.append(w.udp_frame(v6, 0xffff, 3478, b'\x00\x01\x00\x00' + tid))
             frames.append(w.udp_frame(v6, 0xffff, 53, b'\xff\xff\x01\x00\x00\x01\x00\x00\x00\x00\x00\x00' + b'\x3f' + b'\xff' * 63 + b'\x00\x00\x01\x00\x01'))
     cases.append(case(w, frames, ['carry-patterns']))
+    # requests that make a responder rewrite reply addresses or ports (checksums must follow)
+    w2 = World(rng, selfmode=True, denymode=False)
+    w2.self = [w2.my4, w2.my6, w2.my4b, w2.my6b]
+    cases.append(case(w2, stun_sweep_frames(rng, w2, dports=(3478, 65535), flagset=(0, 2, 4, 6)), ['stun-rewrite-sweep']))
     if tier == 'thorough':
         frames = [w.udp_frame(False, sp, 3478, st) for sp in range(0, 65536, 3)]
         frames += [w.fip(v6, 58 if v6 else 1, (icmp6(128, 0, struct.pack('>HH', i, 0xffff) + b'\x00\x01', *w.addrs(True)) if v6 else icmp(8, 0, struct.pack('>HH', i, 0xffff) + b'\x00\x01')))
@@ -310,6 +314,13 @@ def gen_flows(rng, tier, nflows=4, steps=60):
         flows = []
         for _ in range(1 + rng.below(nflows)):
             flows.append([rng.chance(1, 2), rng.u16(), rng.u16(), rng.u32(), b'', False])   # v6, sport, dport, seq, pending remainder, second address
+        if ci % 5 == 1:
+            # IPv4 endpoints and their IPv4-mapped IPv6 twins, same ports, both flows active
+            w.cl6, w.my6 = bytes(10) + b'\xff\xff' + w.cl4, bytes(10) + b'\xff\xff' + w.my4
+            if w.self is not None:
+                w.self = [w.my4, w.my6, w.my4b, w.my6b]
+            f0 = flows[0]
+            flows = [f0, [not f0[0], f0[1], f0[2], rng.u32(), b'', False]] + flows[1:2]
         # relatives of a flow: same endpoints towards the second handled address; same ports in the other IP version
         if rng.chance(1, 2):
             f0 = flows[0]
@@ -776,7 +787,7 @@ PROPS = {
     'C14': dict(gen=gen_appcases(['dns', 'dns', 'dns', 'raw'], tcp=False), judge='C14', judge_mode='app', proj=proj_headers,
                 rule='DNS messages (ids, flag words, 0..k questions, label layouts, type/class grids, QR=1, extra sections, truncation) over UDP; '
                      'non-trivial = IN/A query over IPv4 (answer checked by the independent parser) or non-IN/A / truncated message (silence checked)'),
-    'C15': dict(gen=gen_appcases(['stun', 'stun', 'stun', 'raw'], tcp=False), judge='C15', judge_mode='app', proj=proj_headers,
+    'C15': dict(gen=gen_appcases(['stun', 'stun', 'stun', 'raw']), judge='C15', judge_mode='app', proj=proj_headers,
                 rule='STUN messages with/without magic cookie, attribute lists well-formed (padded) and with lying TLV lengths, change-request flags, '
                      'all class/method codes; non-trivial = binding request identified by the published signatures, or a message of another class/method'),
     'C16': dict(gen=gen_appcases(['rpc', 'rpc', 'rpc', 'raw']), judge='C16', judge_mode='app', proj=proj_headers,
